@@ -32,6 +32,13 @@ func siblingAwait(c *fakeConn, t string, d time.Duration) *krpc.Msg {
 }
 
 func siblingServersCase(seed uint64, n int) {
+	siblingTokenCase(seed, n)
+	// the caller's ServerConfig value changed after NewServer returned, with and without a sibling built
+	// from it (srv_cfgreuse.go)
+	configReuseCases(seed, n)
+}
+
+func siblingTokenCase(seed uint64, n int) {
 	r := (&rng{s: seed ^ 0x51b1}).sub(n)
 	ps := &recPeerStore{}
 	cfg := &dht.ServerConfig{
